@@ -103,6 +103,9 @@ type input struct {
 	CutMax     int64       `json:"cutMax"`
 	Behaviours []behaviour `json:"behaviours"`
 	TraceOut   string      `json:"traceOut"`
+	// Focus "ad": only the ComposedAD predicate (C06/C01: AD implies every piece was validated) is judged and
+	// the lifetime predicates are drift; "" (C04): the lifetime predicates are judged, ComposedAD is drift
+	Focus string `json:"focus"`
 }
 
 // ---------------------------------------------------------------- oracle --
@@ -308,13 +311,18 @@ func (r *run) answerFor(req *dns.Msg, key string, raw, aux, id int64) *dns.Msg {
 			m.Answer = append(m.Answer, sigRR(name, dns.TypeA, "ex.", ttl, aux, id))
 		}
 	}
+	m.AuthenticatedData = validated(id)
 	return m
 }
+
+// validated reports whether the scripted authority vouches for entry id (AD=1 on its answer)
+func validated(id int64) bool { return id%2 == 0 }
 
 func question(key string) *dns.Msg {
 	req := new(dns.Msg)
 	req.SetQuestion(qname(key), dns.TypeA)
 	req.RecursionDesired = true
+	req.AuthenticatedData = true // the client asks for validation state (no edns layer in this chain)
 	return req
 }
 
@@ -360,6 +368,10 @@ func minT(a, b time.Time) time.Time {
 }
 
 func (r *run) violate(pred, what string) {
+	if (r.in.Focus == "ad") != (pred == "ComposedAD") {
+		r.res.DriftNote("%s (judged by another check): %s", pred, what)
+		return
+	}
 	r.res.Violate("c04/api/"+pred, fmt.Sprintf("middleware/cache %s after %v: %s", pred, r.hist, what),
 		map[string]any{"driver": "c04-lease", "behaviour": r.bid, "history": r.hist, "events": r.events,
 			"input": map[string]any{"chain": r.in.Chain, "negKey": r.in.NegKey, "scopedKey": r.in.ScopedKey, "ecsCap": r.in.EcsCap,
@@ -669,6 +681,22 @@ func (r *run) complete(sl *slot, ev map[string]any, where string) []obsPiece {
 		}
 	}
 	r.checkPieces(pcs, sl.t0, where)
+	// C06/C01 on composed replies: AD only when every piece of the reply was validated
+	if answered && sl.w.Msg().AuthenticatedData {
+		answered := map[string]bool{r.in.NegKey: true, r.in.ScopedKey: true}
+		for _, k := range r.in.Chain {
+			answered[k] = true
+		}
+		for _, p := range pcs {
+			// (subtree cuts and denial proofs enter only through the validated-proof seam: always authentic)
+			if answered[p.Key] && p.ID > 0 && !validated(p.ID) {
+				r.violate("ComposedAD", fmt.Sprintf("%s: the reply carries AD=1 although its piece %s came from entry e%d, which was not validated "+
+					"(AD must be the conjunction over every piece a reply is composed of)", where, p.Key, p.ID))
+				break
+			}
+		}
+		r.res.Count("replies_with_ad", 1)
+	}
 	// effective leases: those of a failed deepest level are not inherited
 	var eff []lease
 	for _, L := range sl.leases {
